@@ -8,6 +8,11 @@ XH_NOTE = ('Trusted: CPython 3.12, CrossHair 0.0.110 symbolic int/bool/list mode
            'evidence file. Bounded: only the stated ranges are covered; a timeout/"Not confirmed" is exit 2, never success.')
 XH_TECH = 'bounded symbolic execution of the real Python code with CrossHair (z3), fixed-arity generated contract harnesses, concrete replay of counterexamples'
 
+SX_NOTE = ('Trusted: CPython, z3 (QF_NRA/LIA), the symx proxies and numpy facade (vf/symx.py; validated against real numpy on random constants in '
+           'every job: coverage.translator_validation). Floats are idealised as reals plus an explicit NaN case split; +-inf is not modelled (cut paths are '
+           'counted). Bounded: only the stated row counts / domains; timeouts, unknown or non-reproducing models are exit 2, never success.')
+SX_TECH = 'bounded symbolic execution of the real metric code over z3 terms (own proxy executor symx: DFS over branch decisions with z3 feasibility, per-path unsat of the negated claim, concrete replay of models)'
+
 CHECKS = {
     'C09': dict(engine='xh', level='other', design_ref='DESIGN.md#c09',
                 text='Every obligation (shard interval arithmetic, nested shards, from_state, round-robin shards, merged-sequence '
@@ -30,6 +35,11 @@ CHECKS = {
                      'read-ahead fallback, TreeFn/Assign/FilterFn/Sink iterate, _RunnerIterator) are executed symbolically with one symbolic failure bit per '
                      'element for operators and for the data source, skipping on and off; z3-backed path exploration covers every fault schedule inside '
                      'the bounds and proves: survivors delivered once, in order, aligned; first error surfaces with its cause, iteration stops, sink closed. Bounded; threads outside.'),
+    'C01': dict(engine='symx', level='other', design_ref='DESIGN.md#c01', note=SX_NOTE, technique=SX_TECH,
+                text='For 27 shipped accumulators (rolling statistics incl. NaN and 2-D input, histograms, counters, samplers, Tjur/R-regression/SPD sufficient '
+                     'statistics, confusion-matrix aggregates binary/multiclass/top-k, samplewise classification, top-k retrieval incl. ragged rankings, text n-gram and '
+                     'pattern frequencies) and every composition of the rows into shards x batches (incl. empty shards), z3 proves on every feasible path that the merged '
+                     'result equals the one-batch result and that per-row values do not depend on batch mates. Bounded (3 rows quick / 4 thorough); rounding is outside by the property\'s own wording.'),
 }
 NA = {}
 PENDING = 'check not built yet (see DESIGN.md build order)'
@@ -47,6 +57,8 @@ m = {
     'engines': [
         {'name': 'xh', 'path': 'vf/xh.py', 'serves_properties': sorted(k for k, v in CHECKS.items() if v['engine'] == 'xh'),
          'kind_free_text': 'CrossHair (z3) bounded symbolic execution of real repo functions through generated fixed-arity contract harnesses'},
+        {'name': 'symx', 'path': 'vf/symx.py', 'serves_properties': sorted(k for k, v in CHECKS.items() if v['engine'] == 'symx'),
+         'kind_free_text': 'own proxy executor: real metric code runs on z3 Real/Int/Bool proxies inside object numpy arrays behind a numpy facade; DFS over branches; z3 discharges claims per path'},
     ],
     'checks': [],
     'notes': 'Exit codes: 0 all obligations discharged; 1 VIOLATION (counterexample replayed on the real code); 2 inconclusive. '
